@@ -272,8 +272,8 @@ def run(ctx, res):
                                  default_targets_2024=dict(nn=[t for t in b.get("738886", {}).get("nn", []) if t in metam.dag_for(738886)["targets"]],
                                                            fin_only=[t for t in b.get("738886", {}).get("fin_only", []) if t in metam.dag_for(738886)["targets"]]))
     res.rule = ("corner populations through the real engine at sampled (thorough: all) date classes >= 2015: zero and 1e6 / 1e9 incomes and wealth, negative "
-                "rental income, ages 0-100, large families, pension corner values: EVERY numeric column of the default targets' graph must be finite, every "
-                "default target non-negative, paid benefits <= the entitlement before the priority checks, Elterngeld <= maximum + bonuses. "
+                "rental income, ages 0-100, families with eight to ten children in the midijob band, a grid of Elterngeld claimants with a sibling bonus over prior incomes 0 .. 1e6, pension corner values, early retirees who keep working with high / low former wages: EVERY numeric column of the default targets' graph must be finite, every "
+                "default target non-negative, paid benefits <= the entitlement before the priority checks, Elterngeld <= maximum + sibling bonus on the maximum + multiple-birth bonus per person. "
                 "distinct = engine runs.")
 
 
